@@ -105,6 +105,11 @@ func (c *ServiceCodec) Decode(request []byte, context *core.ServiceContext) (nam
 			paramTypes[i] = parameters[n-1].Elem()
 		}
 	} else {
+		if count > len(parameters) {
+			// more parameters than the method takes
+			err = &jsonrpcError{codeInvalidParams, messageInvalidParams}
+			return
+		}
 		copy(paramTypes, parameters)
 	}
 	args = make([]interface{}, count)
